@@ -27,8 +27,8 @@
 (*                                                                         *)
 (* Parquet (importParquet): columns are converted in file order by         *)
 (* arrowColumnToTyped / parquetColumnToTimeMicros; the first unsupported   *)
-(* column or bad time value rejects the file; nothing is written before    *)
-(* every column is converted.                                              *)
+(* column, uint64 value above 2^63-1 or bad time value rejects the file;   *)
+(* nothing is written before every column is converted.                    *)
 (***************************************************************************)
 EXTENDS Naturals, Sequences, FiniteSets, TLC, Json
 
@@ -40,6 +40,8 @@ CONSTANTS Modes,        \* subset of {"csv", "parquet"}
           PqTypes, PqTimeTypes, PqNulls, PqRanges,
           Families,     \* which families of files Init contains (see Init)
           PqFamCols,    \* columns per file in family pq_cols
+          U64Check,     \* TRUE: the code as it is now (repo commit 4025fa4): a uint64 value above 2^63-1 refuses the
+                        \* file. FALSE: the code as first written (plain int64() cast) -- negative control MC_pq_u64.cfg
           Emit
 
 VARIABLES mode, cols, tfmt, tcls, tunit, bad, skip, tname, tpos, delim,   \* the uploaded file + options
@@ -200,7 +202,7 @@ PqStep ==
                    ELSE /\ phase' = "done" /\ outcome' = "rejected" /\ stored' = 0 /\ UNCHANGED <<c, types>>
           ELSE IF c > n
             THEN /\ phase' = "done" /\ outcome' = "stored" /\ stored' = NRows /\ UNCHANGED <<c, types>>
-          ELSE IF PqStored(pq.types[c]) = "unsupported"
+          ELSE IF PqStored(pq.types[c]) = "unsupported" \/ (U64Check /\ PqOverflows(pq.types[c], pq.range))
             THEN /\ phase' = "done" /\ outcome' = "rejected" /\ stored' = 0 /\ UNCHANGED <<c, types>>
           ELSE /\ types' = Append(types, PqStored(pq.types[c])) /\ c' = c + 1
                /\ phase' = "scan" /\ UNCHANGED <<outcome, stored>>
@@ -237,14 +239,16 @@ AllOrNothing == /\ (outcome = "rejected" => stored = 0)
 \* a file is refused only for a reason the statement allows: it cannot be imported completely
 RejectJustified == (outcome = "rejected") =>
                       IF mode = "csv" THEN ~CsvTimeOK
-                      ELSE ~PqTimeOK \/ \E k \in 1..Len(pq.types) : PqStored(pq.types[k]) = "unsupported"
+                      ELSE \/ ~PqTimeOK
+                           \/ \E k \in 1..Len(pq.types) : PqStored(pq.types[k]) = "unsupported" \/ PqOverflows(pq.types[k], pq.range)
 
-\* every parquet value fits the stored type. NOT true of the code as written for uint64 values
-\* above 2^63-1 (int64(a.Value(i)) wraps): checked separately in MC_pq_u64.cfg, candidate only.
+\* every parquet value of an accepted file fits the stored type. Holds since arrowColumnToTyped refuses
+\* uint64 values above 2^63-1 (U64Check); with U64Check = FALSE (int64(a.Value(i)) wraps) TLC rejects it:
+\* MC_pq_u64.cfg is that negative control.
 PqLossless == (mode = "parquet" /\ outcome = "stored") =>
                   \A k \in 1..Len(pq.types) : ~PqOverflows(pq.types[k], pq.range)
 
-Safety == CsvLossless /\ CsvNarrowest /\ AllOrNothing /\ RejectJustified
+Safety == CsvLossless /\ CsvNarrowest /\ AllOrNothing /\ RejectJustified /\ PqLossless
 
 EmitInv == (Emit /\ phase = "done") =>
     PrintT(<<"TRACE", ToJson([mode |-> mode, cols |-> cols, tfmt |-> tfmt, tcls |-> tcls, tunit |-> tunit, bad |-> bad,
